@@ -6,8 +6,9 @@ CONSTANTS
   HdrSet = {TRUE}
   StyleSet = {"ascii", "solid", "borderless", "compact"}
   AvailSet <- AFew
-  IndSet = {0, 3}
+  IndSet = {3}
   AlignMode = 1
+  DupMode = FALSE
   Pool <- PoolTiny
 INVARIANT TypeOK
 INVARIANT InvSucceeds
